@@ -257,11 +257,21 @@ fn reader_actor(
 }
 
 /// The plan without its aborted transactions: by C08 they leave no trace, so it must behave the same.
-fn without_aborted_txns(plan: &Plan) -> Option<Plan> {
+/// The history without the aborted transactions that *precede* the transaction in which step
+/// `obs_step` runs; that transaction and everything after it are kept as they are (an observation made
+/// inside a transaction that is itself aborted later must not disappear with it).
+fn without_aborted_txns(plan: &Plan, obs_step: usize) -> Option<Plan> {
+    let obs = obs_step.min(plan.steps.len());
+    let mut keep_from = 0usize;
+    for (i, st) in plan.steps.iter().enumerate().take(obs) {
+        if matches!(st, Step::Abort | Step::Commit | Step::Restart) {
+            keep_from = i + 1;
+        }
+    }
     let mut out = Vec::new();
     let mut txn_start = 0usize;
     let mut removed = false;
-    for st in &plan.steps {
+    for st in &plan.steps[..keep_from] {
         match st {
             Step::Abort => {
                 if out.len() > txn_start {
@@ -279,6 +289,7 @@ fn without_aborted_txns(plan: &Plan) -> Option<Plan> {
     if !removed {
         return None;
     }
+    out.extend(plan.steps[keep_from..].iter().cloned());
     let mut p = plan.clone();
     p.steps = out;
     Some(p)
@@ -290,9 +301,8 @@ pub fn run(plan: &Plan, workdir: &Path) -> Outcome {
     let mut out = run_once(plan, workdir);
     if out.violation.is_none() && !out.observations.is_empty() {
         let first = out.observations[0].clone();
-        let abort_before = plan.steps.iter().take(first.step.min(plan.steps.len())).any(|s| matches!(s, Step::Abort));
-        if abort_before {
-            if let Some(p2) = without_aborted_txns(plan) {
+        {
+            if let Some(p2) = without_aborted_txns(plan, first.step) {
                 let o2 = run_once(&p2, workdir);
                 let same = o2.violation.is_some() || o2.observations.iter().any(|o| o.kind == first.kind && o.properties == first.properties) || o2.unevaluable.is_some();
                 if !same {
@@ -352,6 +362,7 @@ fn run_once(plan: &Plan, workdir: &Path) -> Outcome {
             let workdir = workdir.to_path_buf();
             scope.spawn(move || {
                 let mut ex = Exec::new(plan, &workdir, Some(ts.clone()));
+                ex.keep_going_on_broken_forest = true;
                 crate::ctx::set_active(Some(ex.ctx.clone()));
                 let d0 = ex.dump_current();
                 sh.lock().unwrap().versions.push((d0, ex.world.clone()));
